@@ -1189,7 +1189,7 @@ where
 /// 4. Preprocessed round (if present): for each matrix, observe prep_local (+ FRI random) then prep_next (+ FRI random)
 /// 5. Permutation round (if present): for each instance, observe perm_local (+ FRI random) then perm_next (+ FRI random)
 #[allow(clippy::too_many_arguments)]
-fn observe_opened_values_circuit<
+pub(super) fn observe_opened_values_circuit<
     SC,
     CP: ChallengerPermConfig,
     const WIDTH: usize,
